@@ -31,3 +31,7 @@ func FuzzAttestation(f *testing.F) { fuzzAttestation(f) }
 func TestC17(t *testing.T)         { RunC17(t) }
 func TestC17Genesis(t *testing.T)  { RunC17Genesis(t) }
 func FuzzGenesisJSON(f *testing.F) { fuzzGenesisJSON(f) }
+func TestC20(t *testing.T)        { RunC20(t) }
+func FuzzWireMsg(f *testing.F)    { fuzzWireMsg(f) }
+func FuzzQuery(f *testing.F)      { fuzzQuery(f) }
+func FuzzCLIAddress(f *testing.F) { fuzzCLIAddress(f) }
